@@ -213,6 +213,7 @@ def c04_rf18(run):
     rf_fold.rf41(run)
     rf_inline.rf45(run)
     rf_inline.rf46(run)
+    rf_fold.rf48(run)
 
 
 def c16_rf16(run):
@@ -334,6 +335,7 @@ def c02_rf26(run):
     rf_fold.rf39(run)
     rf_fold.rf40(run)
     rf_fold.rf41(run)
+    rf_fold.rf48(run)
 
 
 PLAN = {
